@@ -476,6 +476,7 @@ func main() {
 	stride := flag.Int("stride", 1, "run indices from, from+stride, ...")
 	knownPath := flag.String("known", "", "known findings (JSON list): matching violations are counted, not reported")
 	flag.Parse()
+	activeProp = *prop
 	loadSites(*sitesPath)
 	sort.Slice(scenarios, func(i, j int) bool { return scenarios[i].Name < scenarios[j].Name })
 
@@ -669,6 +670,7 @@ func doReplay(path, raceLog string) int {
 		return 2
 	}
 	agg := newAgg()
+	activeProp = rf.Property
 	v, rc, h := execute(s, simrt.ReplayTape(rf.Tape), agg, true)
 	for _, l := range formatTrace(rc) {
 		fmt.Println(l)
